@@ -127,11 +127,15 @@ def check_after_build(found, count, case, model, truth, sim, db, snap, *, prefix
         sig = "orphan-output-left"
         if in_graph and row[0] in bad and closed:
             sig = "detached-cycle-survives"
+        elif truth.written_as.get(path) == "vol" and truth.ever_output.get(path) == "out":
+            # written while it was a volatile output, then re-declared as a regular output of a step
+            # that did not run again: the row went VOLATILE -> PLANNED and nothing remembers the file
+            sig = "stale-volatile-file-after-redeclaration-as-output"
         elif not in_graph:
             sig = "orphan-file-forgotten"
         finding(found, prefix + sig,
                 f"{path}, an unmodified output of a step the plan no longer needs, is still on disk after a "
-                f"successful build with cleaning ({'still in the graph, detached' if in_graph else 'no longer in the graph'})",
+                f"successful build with cleaning ({('still in the graph, ' + ('detached' if row[4] else 'attached, state ' + str(row[5]))) if in_graph else 'no longer in the graph'})",
                 {**case, "path": path, "graph_row": None if row is None else list(row[:6])})
     # (b) detached nodes must be held by something attached
     bad, closed = held_by_attached(db)
@@ -206,7 +210,7 @@ def run_case(seed_key, tier: str):
             history.append(("build", kw))
             res = sim.build(**kw)
             records = probe.take()
-            truth.note_build(res.runs)
+            truth.note_build(res.runs, (), model)
             count("builds")
             if res.status != "done":
                 count(f"build-status-{res.status}")
@@ -300,6 +304,49 @@ def f5_scenario(variant: int = 0):
     return found, stats, summary
 
 
+def rerole_scenario():
+    """A volatile output that is re-declared as a regular output of an optional step which is no
+    longer needed: v1 `prod` (optional, out p.txt, vol p.log) is needed by `use`; v2 re-declares
+    p.log as a regular output of `prod` and drops `use`.  The row goes VOLATILE -> PLANNED (no
+    memory of the file), `prod` never runs again, nothing ever removes `out/p.log`."""
+    from simdirector import A, FifoSchedule, Project, SimDirector
+
+    def plan(v):
+        acts = [A.static("src/a.txt")]
+        if v == 1:
+            acts += [A.step("prod", inp=["src/a.txt"], out=["out/p.txt"], vol=["out/p.log"], optional=True),
+                     A.step("use", inp=["out/p.txt"], out=["out/u.txt"])]
+        else:
+            acts += [A.step("prod", inp=["src/a.txt"], out=["out/p.log", "out/p.txt"], optional=True)]
+        return acts
+
+    found: list[Finding] = []
+    stats: dict[str, int] = {}
+
+    def count(key, n=1):
+        stats[key] = stats.get(key, 0) + n
+
+    m1 = ck.CModel(static={"src/a.txt": "A1\n"},
+                   steps=[ck.CStep(name="prod", inp=["src/a.txt"], out=["out/p.txt"], vol=["out/p.log"], optional=True),
+                          ck.CStep(name="use", inp=["out/p.txt"], out=["out/u.txt"])])
+    m2 = ck.CModel(static={"src/a.txt": "A1\n"},
+                   steps=[ck.CStep(name="prod", inp=["src/a.txt"], out=["out/p.log", "out/p.txt"], optional=True)])
+    truth = ck.Truth()
+    summary = []
+    with SimDirector(Project(scripts={"./plan.py": plan(1)}, files={"src/a.txt": "A1\n"}), seed=1) as sim:
+        for i, (v, model) in enumerate([(1, m1), (2, m2), (2, m2)]):
+            sim.set_script("./plan.py", plan(v))
+            truth.declare(model)
+            res = sim.build(njob=1, schedule=FifoSchedule())
+            truth.note_build(res.runs, (), model)
+            summary.append([i + 1, res.status, str(res.returncode), res.commands, res.tags("REMOVE")])
+            if res.status != "done" or res.returncode.value != 0:
+                return found, stats, summary
+        case = {"scenario": "rerole", "builds": summary, "reproduce": "harness/props/c07.py: rerole_scenario()"}
+        check_after_build(found, count, case, m2, truth, sim, ck.read_db_of(sim), ck.snapshot(sim.root))
+    return found, stats, summary
+
+
 def f6_scenario(seed: int = 0):
     """Finding F6.  A step is dropped; the director is killed right after the transaction of
     `delete_detached` (the node is gone from the database) and before `remove_deletable_files`
@@ -385,14 +432,14 @@ async def run_histories(ctx, salt: str, n: int, with_model: bool):
 
 async def correspond(ctx):
     await kcorr.run(ctx, SCOPES, quick=(60, 60), thorough=(1500, 80), salt="c07")
-    await run_histories(ctx, "corr-hist", ctx.budget(120, 3000), with_model=True)
+    await run_histories(ctx, "corr-hist", ctx.budget(120, 1500), with_model=True)
     ctx.stats.rule = ("kernel request sequences (a case is one request; distinct = distinct database states) + one case "
                       "per cleanup pass of a simulated build (database before revert_optional_steps -> model -> database "
                       "after delete_detached and the queue); histories count as non-trivial when a file was removed")
 
 
 async def search(ctx):
-    await run_histories(ctx, "oracle-hist", ctx.budget(220, 6000), with_model=False)
+    await run_histories(ctx, "oracle-hist", ctx.budget(220, 3500), with_model=False)
     for variant in range(ctx.budget(1, 3)):
         found, stats, summary = await asyncio.to_thread(f5_scenario, variant)
         for f in found:
@@ -402,6 +449,10 @@ async def search(ctx):
     for f in found:
         ctx.finding(f)
     ctx.stats.count("scenario-f6")
+    found, stats, summary = await asyncio.to_thread(rerole_scenario)
+    for f in found:
+        ctx.finding(f)
+    ctx.stats.count("scenario-rerole")
 
 
 async def replay(ctx, detail):
@@ -411,6 +462,8 @@ async def replay(ctx, detail):
         found, *_ = await asyncio.to_thread(f5_scenario, int(d.get("variant", 0)))
     elif d.get("scenario") == "f6":
         found, *_ = await asyncio.to_thread(f6_scenario, 0)
+    elif d.get("scenario") == "rerole":
+        found, *_ = await asyncio.to_thread(rerole_scenario)
     elif d.get("seed_key"):
         found, *_ = await asyncio.to_thread(run_case, tuple(d["seed_key"]), ctx.tier)
     else:
